@@ -221,6 +221,19 @@ def rule_closure(prog, rep):
                                  f"hidden in a function (static) field instead of being a leaf")
                 else:
                     rep.holds("C14.closure", f"{c.module.relpath}:{node.lineno}", k, f"free names {sorted(free)[:6]}")
+            elif isinstance(node, ast.Call) and ast.unparse(node.func) in ("partial", "functools.partial") and node.args:
+                # functools.partial is a closure too: it is not a pytree node, its bound arguments are hidden state
+                n += 1
+                bound = list(node.args[1:]) + [kw.value for kw in node.keywords]
+                bad = [ast.unparse(b)[:60] for b in bound if ft.is_tainted(b)]
+                k = f"{c.qualname}.__init__:partial@{ast.unparse(node.args[0])[:40]}"
+                if bad:
+                    rep.violated("C14.closure", f"{c.module.relpath}:{node.lineno}", k,
+                                 f"functools.partial binds {bad}, computed from array constructor arguments: a partial "
+                                 f"is an opaque callable (not a pytree node), so this array is neither a leaf nor "
+                                 f"serialised nor trained")
+                else:
+                    rep.holds("C14.closure", f"{c.module.relpath}:{node.lineno}", k, "binds static values only")
     rep.analysed["closures_scanned"] = n
 
 
